@@ -132,6 +132,13 @@ add("C13", "exploration",
     "Oracle imports no gocoin package. Change rule judged: change returns to the script of the output spent by input 0 unless -change is given. Interactive prompts, multisig flows and litecoin mode are not driven.",
     "DESIGN.md §3 C13")
 
+add("C12", "exploration",
+    "invariant recomputation at quiescent points: txpool wired to a regtest-like chain exactly as client/main.go does, driven by random histories (network/local/trusted submissions, chains, diamonds, orphans, RBF, mined and undone blocks, reorganisations, expiry, eviction, save/reload); an independent walker recomputes every pool invariant after every step; a block built from the listing must be accepted",
+    "Held on the histories observed: 40 histories x 150 steps per quick run (~22k walks, ~4k full walks with both fee-ordered listings and a dry-run block, ~6k blocks delivered, ~130 reorganisations, ~110 reloads): no two pooled transactions spend the same outpoint, every input is confirmed-unspent or pooled, nothing pooled is confirmed or conflicts with the chain, "
+    "recorded fee/size/weight equal the reference values, the spent-output and in-pool-parent indexes equal their recomputation, listings put parents before children and list exactly the pool, a block assembled from the listing is accepted by the node; no panic, os.Exit or non-returning call inside txpool (bounded by retry counters, not by the clock).",
+    "Oracle = the walker in mon/c12/walk.go over the exported maps + the node's UTXO dump + /verif/ref/reftx; txpool.MempoolCheck() is reported as auxiliary evidence only. Replays are not bit-exact because map iteration order inside txpool varies.",
+    "DESIGN.md §3 C12")
+
 NOT_BUILT = {}
 
 def main():
